@@ -90,6 +90,15 @@ FURTHER spec keys and constructs (each rule is derived from the AST; what is not
   `min(l)` / `max(l)` / `a.min()` / `a.max()` (`Py.minE` / `Py.maxE`: ValueError when empty; NaN not modelled), `x in l`
   (IEEE `==` through `≤`), `l.sort([key=itemgetter(k)])` (`Py.sortOn`: a stable sort with `<`), `s.split('c')`, `s[k:]`,
   calls of base-dialect kernels of the same file on arrays (element-wise, `List.zipWith`).
+  try: x = E1 except (C1, C2): <statements>  — a handler that is a statement list (it may `continue` / `raise` / `return` or fall
+  through; it does not see x).  `for x in f(...)` where the call may raise: evaluated once before the first pass.  obj_methods
+  entries may carry `raises=True`.  tvars flag iter=(lean name, element type): an opaque value that can be iterated (the list of
+  what it yields is a function parameter).  A declared cell may hold a 'make' callable (e.g. an imported class: attrs
+  {'PickleCIA': (name, '$K')}).
+  Int counters: `x = <integer literal>` (possibly negative) for a local makes an `Int`; `x += n` / `x -= n`.  3-D arrays of
+  numbers `[[[α]]]` under `total_index`: `A[i, :, k] = v` (`Py.setCol3`: Python's negative indices; nothing is written where an
+  index is out of range or `v` has no element for a row; a `v` of length 1 is broadcast), `A[:, :, idx]` for an index array
+  (`Py.takeLast3`), `A * c` (scalar broadcast).  `l[k:]` on lists (`List.drop`); an integer literal against an array is a scalar.
 Totalisations (Python raises or behaves differently): `a - b` on indices / counts is the truncated subtraction of `Nat` (a
 negative Python int is not represented); element-wise kernels on arrays of different lengths stop at the shorter one (numpy
 raises); subscripts under `total_index` (above).  Everything else that Python raises is an `Except.error`."""
@@ -105,6 +114,7 @@ BOOL = ('bool',)
 STR = ('str',)
 UNIT = ('unit',)
 INTLIT = ('intlit',)
+INT = ('int',)          # a Python int that may be negative (a counter initialised with an integer literal): Lean `Int`
 ERR = ('err',)
 
 
@@ -265,6 +275,8 @@ class PyFn(Fn):
         # records: objects of a translated class held in variables / containers, as the tuple of their attribute values:
         # {name: dict(fields=[(attribute, type)], methods={method: callname of its translation})}
         self.records = dict(spec.get('records', {}))
+        self.streams = set(spec.get('streams', ()))       # variables holding an open text file: the list of the lines not yet read
+        self.views = {}           # name -> (dict key, key variable name, Var of x, Var of k, Var of D): x = D[k] IS the element
         self.frozen = set()       # cells of loop variables that hold an element OF the iterated container: mutating one would
         #                           mutate the container, which the translation (elements are values) does not show
         self.subst = {}
@@ -326,6 +338,8 @@ class PyFn(Fn):
             return 'α'
         if k in ('nat', 'enum', 'ref'):
             return 'Nat'
+        if k == 'int':
+            return 'Int'
         if k == 'bool':
             return 'Bool'
         if k == 'str':
@@ -702,6 +716,12 @@ class PyFn(Fn):
             if w not in (A, NAT):
                 self.fail(node, 'arithmetic on integer literals of unknown type')
             lt = rt = w
+        if rt == INTLIT and (lt == ('list', A) or self.is_num3(lt)):
+            r = self.co(r, A, node)                        # array op integer literal: the literal is a scalar of the carrier
+            rt = A
+        if lt == INTLIT and (rt == ('list', A) or self.is_num3(rt)):
+            l = self.co(l, A, node)
+            lt = A
         if lt == INTLIT:
             l = self.co(l, rt, node)
             lt = rt
@@ -718,6 +738,8 @@ class PyFn(Fn):
             return self.seq([l, r], lambda a: '(List.map (fun x__ => (x__ %s %s)) %s)' % (op, a[1], a[0]), lt)
         if lt == A and rt == ('list', A):
             return self.seq([l, r], lambda a: '(List.map (fun x__ => (%s %s x__)) %s)' % (a[0], op, a[1]), rt)
+        if self.is_num3(lt) and rt == A:                   # a 3-D array and a scalar
+            return self.seq([l, r], lambda a: '(List.map (List.map (List.map (fun x__ => (x__ %s %s)))) %s)' % (op, a[1], a[0]), lt)
         if lt[0] == rt[0] == 'list' and op == '+':
             ty = self.unify(lt, rt, node)
             return self.seq([l, r], lambda a: '(%s ++ %s)' % (a[0], a[1]), ty)
@@ -743,6 +765,9 @@ class PyFn(Fn):
                 x = self.co(x, ct[1], node)
                 self.need_eq(ct[1], node)
                 return self.seq([x, c], lambda a: neg('(Py.dhas %s %s)' % (a[1], a[0])), BOOL)
+            if ct[0] == 'list' and self.resolve(ct[1])[0] == 'u' and self.resolve(x.ty) == A:
+                self.unify(ct[1], A, node)                 # a list whose element type is not fixed yet: it holds numbers
+                ct = self.resolve(c.ty)
             if ct[0] == 'list' and self.resolve(ct[1]) == A:
                 # numbers: `==` through the order (IEEE: false for NaN, true for ±0)
                 x = self.co(x, A, node)
@@ -835,6 +860,17 @@ class PyFn(Fn):
         base = self.expr(node.value, env)
         bt = self.resolve(base.ty)
         idx = node.slice
+        if bt[0] == 'list' and isinstance(idx, ast.Slice) and idx.upper is None and idx.step is None \
+                and isinstance(idx.lower, ast.Constant) and isinstance(idx.lower.value, int) and idx.lower.value >= 0 \
+                and not isinstance(idx.lower.value, bool):
+            return self.seq([base], lambda a: '(List.drop %d %s)' % (idx.lower.value, a[0]), bt)   # l[k:]
+        if self.is_num3(bt) and isinstance(idx, ast.Tuple) and len(idx.elts) == 3 and self.spec.get('total_index') \
+                and all(self.full_slice(e) for e in idx.elts[:2]) and self.key_of(idx.elts[2]) is not None:
+            iv = env.get(self.key_of(idx.elts[2])) or self.lookup(self.key_of(idx.elts[2]), env)
+            if iv is not None and self.resolve(iv.ty) == ('list', NAT):
+                # A[:, :, idx] for an index array (TOTALISED like a[idx]): along the last axis, the elements at those positions
+                self.literals.add(0)
+                return self.seq([base], lambda a: '(Py.takeLast3 (0 : α) %s %s)' % (a[0], iv.cell), bt)
         if bt == STR and isinstance(idx, ast.Slice) and idx.upper is None and idx.step is None \
                 and isinstance(idx.lower, ast.Constant) and isinstance(idx.lower.value, int) and idx.lower.value >= 0:
             return self.seq([base], lambda a: '(Py.strDrop %d %s)' % (idx.lower.value, a[0]), STR)
@@ -872,6 +908,37 @@ class PyFn(Fn):
             self.raise_points += 1
             return self.seq([base, k], lambda a: '(Py.lgetE %s %s)' % (a[0], a[1]), bt[1], raises_result=True)
         self.fail(node, 'subscript of a %s' % self.show(bt))
+
+    def is_num3(self, t):
+        t = self.resolve(t)
+        return t[0] == 'list' and self.resolve(t[1])[0] == 'list' and self.resolve(self.resolve(t[1])[1]) == ('list', A)
+
+    @staticmethod
+    def full_slice(e):
+        return isinstance(e, ast.Slice) and e.lower is None and e.upper is None and e.step is None
+
+    @staticmethod
+    def int_literal(node):
+        """the value of an integer literal, possibly negated, else None"""
+        if isinstance(node, ast.Constant) and isinstance(node.value, int) and not isinstance(node.value, bool):
+            return node.value
+        if isinstance(node, ast.UnaryOp) and isinstance(node.op, ast.USub) and isinstance(node.operand, ast.Constant) \
+                and isinstance(node.operand.value, int) and not isinstance(node.operand.value, bool):
+            return -node.operand.value
+        return None
+
+    def index_int(self, node, env):
+        """Lean text (an `Int`) of an index expression: an int counter, a count, or a literal"""
+        iv = self.int_literal(node)
+        if iv is not None:
+            return '(%d : Int)' % iv
+        r = self.value(node, env)
+        t = self.resolve(r.ty)
+        if t == INT:
+            return r.txt
+        if t == NAT:
+            return '(Int.ofNat %s)' % r.txt
+        self.fail(node, 'index of type %s' % self.show(t))
 
     def default(self, t, node=None):
         """the default value of a type (totalised indexing)"""
@@ -1042,6 +1109,11 @@ class PyFn(Fn):
                 rt = self.T(d['ret'])
                 rs = [self.expr(a, env, t) for a, t in zip(node.args, ats)]
                 ptx, pty = self.ext_prefix(d, env, node)
+                if d.get('raises'):                        # a method that may raise: the parameter returns `Except Py.Err ret`
+                    self.add_param(d['lean'], ' → '.join(pty + [self.lty(bt)] + [self.lty(t) for t in ats]
+                                                         + ['(Except Py.Err %s)' % self.lty(rt)]))
+                    self.raise_points += 1
+                    return self.seq([base] + rs, lambda a: '(%s %s)' % (d['lean'], ' '.join(ptx + a)), rt, raises_result=True)
                 self.add_param(d['lean'], ' → '.join(pty + [self.lty(bt)] + [self.lty(t) for t in ats] + [self.lty(rt)]))
                 return self.seq([base] + rs, lambda a: '(%s %s)' % (d['lean'], ' '.join(ptx + a)), rt)
             self.fail(node, 'unsupported method call')
@@ -1174,6 +1246,13 @@ class PyFn(Fn):
             return r.txt, t[1]
         if t[0] == 'dict':
             return '(Py.keys %s)' % r.txt, t[1]
+        if t[0] == 'tv' and isinstance(self.tvars.get(t[1]), dict) and 'iter' in self.tvars[t[1]]:
+            # an opaque value declared ITERABLE (tvars flag iter=(lean name, element type)): the list of what iterating it
+            # yields is the function parameter `lean` applied to it
+            nm, ety = self.tvars[t[1]]['iter']
+            et = self.T(ety)
+            self.add_param(nm, '%s → (List %s)' % (self.lty(t), self.lty(et)))
+            return '(%s %s)' % (nm, r.txt), et
         self.fail(node, 'iteration over a %s' % self.show(t))
 
     def bind_target(self, target, src, ty, env, ind):
@@ -1346,8 +1425,16 @@ class PyFn(Fn):
             if isinstance(s, ast.Assign):
                 for t in s.targets:
                     target(t)
+                    if isinstance(t, ast.Attribute) and isinstance(t.value, ast.Name) and self.key_of(t) is None:
+                        add(t.value.id)                    # x.field = e
                 if isinstance(s.value, ast.Call):
                     self.call_effects(s.value, env, add)
+                    if isinstance(s.value.func, ast.Attribute) and s.value.func.attr == 'readline' \
+                            and isinstance(s.value.func.value, ast.Name) and s.value.func.value.id in self.streams:
+                        add(s.value.func.value.id)
+                if self.spec.get('element_views') and isinstance(s.value, ast.Subscript) and self.key_of(s.value) is None \
+                        and self.key_of(s.value.value) is not None:
+                    add(self.key_of(s.value.value))        # x = D[k]: D may be mutated through x
             elif isinstance(s, ast.AugAssign):
                 target(s.target)
             elif isinstance(s, ast.Expr) and isinstance(s.value, ast.Call):
@@ -1366,6 +1453,13 @@ class PyFn(Fn):
             elif isinstance(s, ast.Try):
                 for k in self.assigned(list(s.body) + [x for h in s.handlers for x in h.body], env):
                     add(k)
+            elif isinstance(s, (ast.While, ast.With)):
+                for k in self.assigned(s.body, env):
+                    add(k)
+                if isinstance(s, ast.With):
+                    for it in s.items:
+                        if it.optional_vars is not None:
+                            target(it.optional_vars)
         return out
 
     def call_effects(self, c, env, add):
@@ -1389,6 +1483,8 @@ class PyFn(Fn):
             return
         k = self.key_of(c.func)
         v = env.get(k) if k else None
+        if v is None and k is not None and k in self.pattrs:
+            v = Var(*self.pattrs[k])
         if v is None and isinstance(c.func, ast.Name) and self.writes_world:
             add('$world')                                  # a local not bound yet (e.g. unpacked in the loop body): may write
         if v is not None:
@@ -1460,6 +1556,21 @@ class PyFn(Fn):
             if ctx.cont is None:
                 self.fail(s, 'continue outside a translated loop')
             return ctx.cont(env, ind)
+        if isinstance(s, ast.Break):
+            if getattr(ctx, 'brk', None) is None:
+                self.fail(s, 'break outside a translated `while True` loop')
+            self.nleave += 1
+            return ctx.brk(env, ind)
+        if isinstance(s, ast.While):
+            return self.while_stmt(s, env, ctx, ind, cont)
+        if isinstance(s, ast.With):
+            # `with E as f: body` for a declared expression E (expr_externals; e.g. an opened file): `f = E`, then the body
+            # (leaving the block has no effect the translation tracks)
+            if len(s.items) != 1 or not isinstance(s.items[0].optional_vars, ast.Name) \
+                    or ast.unparse(s.items[0].context_expr) not in self.spec.get('expr_externals', {}):
+                self.fail(s, 'unsupported with statement')
+            asg = ast.copy_location(ast.Assign(targets=[s.items[0].optional_vars], value=s.items[0].context_expr), s)
+            return self.block([asg] + list(s.body), env, ctx, ind, lambda e, i: cont(e, i))
         if isinstance(s, ast.Assign):
             if len(s.targets) != 1:
                 self.fail(s, 'multiple assignment targets')
@@ -1468,6 +1579,8 @@ class PyFn(Fn):
             return self.call_stmt(s, s.value, None, env, ctx, ind, cont)
         if isinstance(s, ast.Try):
             return self.try_stmt(s, env, ctx, ind, cont)
+        if isinstance(s, ast.AugAssign):
+            return self.aug_assign(s, env, ctx, ind, cont)
         if isinstance(s, ast.If):
             return self.if_stmt(s, env, ctx, ind, cont)
         if isinstance(s, ast.For):
@@ -1481,6 +1594,12 @@ class PyFn(Fn):
         def one_assign(stmts):
             return len(stmts) == 1 and isinstance(stmts[0], ast.Assign) and len(stmts[0].targets) == 1 \
                 and isinstance(stmts[0].targets[0], ast.Name)
+        if not s.orelse and not s.finalbody and one_assign(s.body) and len(s.handlers) == 1 and s.handlers[0].name is None \
+                and not one_assign(s.handlers[0].body):
+            return self.try_block_handler(s, env, ctx, ind, cont)
+        if not s.orelse and not s.finalbody and len(s.handlers) == 1 and s.handlers[0].name is None \
+                and not (one_assign(s.body) and one_assign(s.handlers[0].body)):
+            return self.try_general(s, env, ctx, ind, cont)
         if s.orelse or s.finalbody or not one_assign(s.body) or not all(one_assign(h.body) for h in s.handlers) \
                 or len(s.handlers) != 1:
             self.fail(s, 'unsupported try statement')
@@ -1517,6 +1636,114 @@ class PyFn(Fn):
             return self.bind_target(s.body[0].targets[0], txt, ty, env2, ind2) + cont(env2, ind2)
         return self.bind_value(r, ctx, env, ind, use)
 
+    def try_general(self, s, env, ctx, ind, cont):
+        """try: <statements>  except (C1, C2): <statements>   (no else / finally, one clause without `as`): the body is translated
+        with a context whose `raise` goes to the handler when the clause names the error (else it propagates), with the
+        variables as they are where the error is raised; what follows the try statement runs in the outer context"""
+        h = s.handlers[0]
+        if h.type is None:
+            caught = None
+        else:
+            classes = h.type.elts if isinstance(h.type, ast.Tuple) else [h.type]
+            names = []
+            for c in classes:
+                n = ast.unparse(c)
+                names.append(self.exc_classes[n] if n in self.exc_classes else '(Py.Err.other "%s")' % n.split('.')[-1])
+            caught = lambda e: '(' + ' || '.join('decide (%s = %s)' % (e, n) for n in names) + ')'
+
+        def raise2(e, env2, ind2):
+            if caught is None:
+                return self.block(list(h.body), dict(env2), ctx, ind2, cont)
+            out = '%sif %s then\n' % (ind2, caught(e))
+            out += self.block(list(h.body), dict(env2), ctx, ind2 + '  ', cont)
+            out += '%selse\n' % ind2
+            return out + ctx.raise_(e, env2, ind2 + '  ')
+        ctx2 = Ctx(self, raise2, ctx._ret, ctx._cont)
+        if getattr(ctx, 'brk', None) is not None:
+            ctx2.brk = ctx.brk
+        return self.block(list(s.body), env, ctx2, ind, cont)
+
+    def while_stmt(self, s, env, ctx, ind, cont):
+        """`while True:` — left by `break`, an exception (or `return`: not translated).  `Py.whileE fuel init body`: the body maps
+        the loop state to (state, none = next pass | some none = break | some (some e) = raise e); `fuel` (a parameter of the
+        generated definition) bounds the number of passes — a loop that is still running when it is used up ends in the error
+        `nontermination` (Python would not return)"""
+        if s.orelse or not (isinstance(s.test, ast.Constant) and s.test.value is True):
+            self.fail(s, 'unsupported while statement')
+        raw = self.assigned(s.body, env)
+        keys = [k for k in raw if k in env or k in self.pattrs or k == '$world']
+        wkeys = [k for k in keys if k != '$world']
+        for k in wkeys:
+            self.check_loop_var(k, env, s)
+        has_w = '$world' in keys
+        n = len(wkeys) + (1 if has_w else 0)
+
+        def packs(e):
+            cells = [(e.get(k) or self.lookup(k, e)).cell for k in wkeys] + ([self.world_var()] if has_w else [])
+            if not cells:
+                return '()'
+            return cells[0] if len(cells) == 1 else '(' + ', '.join(cells) + ')'
+        ts = [self.lty((env.get(k) or self.lookup(k, env)).ty) for k in wkeys] + ([self.lty(tv(self.world[1]))] if has_w else [])
+        ptype = 'Unit' if not ts else (ts[0] if len(ts) == 1 else '(' + ' × '.join(ts) + ')')
+
+        def unpack(src_, e, ind2):
+            out = ''
+            for i, k in enumerate(wkeys):
+                out += '%slet %s := %s\n' % (ind2, (e.get(k) or self.lookup(k, e)).cell, self.proj(src_, i, n))
+            if has_w:
+                out += '%slet %s := %s\n' % (ind2, self.world_var(), self.proj(src_, n - 1, n))
+            return out
+        st = self.fresh('st')
+        env2 = dict(env)
+        i2 = ind + '    '
+        head = unpack(st, env2, i2) if n else ''
+        lctx = Ctx(self, lambda e, en, i: '%s(%s, some (some %s))\n' % (i, packs(en), e),
+                   lambda node, en, i: self.fail(s, 'return inside a loop'),
+                   lambda en, i: '%s(%s, none)\n' % (i, packs(en)))
+        lctx.brk = lambda en, i: '%s(%s, some none)\n' % (i, packs(en))
+        btxt = head + self.block(list(s.body), env2, lctx, i2, lambda en, i: '%s(%s, none)\n' % (i, packs(en)))
+        self.add_param('fuel', 'Nat')
+        self.raise_points += 1
+        r = self.fresh('r')
+        env3 = dict(env)
+        out = '%slet %s := Py.whileE fuel %s (fun (%s : %s) =>\n%s%s  )\n' % (ind, r, packs(env), st, ptype, btxt, ind)
+        out += unpack(r + '.1', env3, ind)
+        return out + ('%sPy.caseO %s.2 (fun e__ =>\n%s%s  ) (\n%s%s  )\n'
+                      % (ind, r, ctx.raise_('e__', env3, ind + '    '), ind, cont(env3, ind + '    '), ind))
+
+    def try_block_handler(self, s, env, ctx, ind, cont):
+        """try: x = E1  except (C1, C2): <statements>   — the handler is a statement list (it may `continue`, `raise`, `return`
+        or fall through to what follows the try statement; it does not see `x`).  An error of E1 that the clause does not
+        name propagates."""
+        h = s.handlers[0]
+        e1 = self.expr(s.body[0].value, env)
+        if not e1.raises:                                  # nothing can be caught: the handler is unreachable
+            return self.assign(s.body[0], s.body[0].targets[0], s.body[0].value, env, ctx, ind, cont)
+        if h.type is None:
+            caught = None
+        else:
+            classes = h.type.elts if isinstance(h.type, ast.Tuple) else [h.type]
+            names = []
+            for c in classes:
+                n = ast.unparse(c)
+                names.append(self.exc_classes[n] if n in self.exc_classes else '(Py.Err.other "%s")' % n.split('.')[-1])
+            caught = '(' + ' || '.join('decide (e__ = %s)' % n for n in names) + ')'
+        self.raise_points += 1
+        v = self.fresh()
+        out = '%sPy.caseE %s (fun e__ =>\n' % (ind, self.materialise(e1))
+        if caught is None:
+            out += self.block(list(h.body), dict(env), ctx, ind + '    ', cont)
+        else:
+            out += '%s    if %s then\n' % (ind, caught)
+            out += self.block(list(h.body), dict(env), ctx, ind + '      ', cont)
+            out += '%s    else\n' % ind
+            out += ctx.raise_('e__', env, ind + '      ')
+        out += '%s  ) (fun %s =>\n' % (ind, v)
+        env2 = dict(env)
+        out += self.bind_target(s.body[0].targets[0], v, e1.ty, env2, ind + '    ') + cont(env2, ind + '    ')
+        out += '%s  )\n' % ind
+        return out
+
     def exc_text(self, s):
         if s.exc is None or s.cause is not None:
             self.fail(s, 'unsupported raise')
@@ -1543,9 +1770,52 @@ class PyFn(Fn):
 
     def assign(self, s, target, value, env, ctx, ind, cont):
         env = dict(env)
+        # A[i, :, k] = v on a 3-D array
+        if isinstance(target, ast.Subscript) and self.key_of(target) is None and isinstance(target.slice, ast.Tuple) \
+                and len(target.slice.elts) == 3 and self.full_slice(target.slice.elts[1]):
+            return self.store3(s, target, value, env, ctx, ind, cont)
         # d[k] = v
         if isinstance(target, ast.Subscript) and self.key_of(target) is None:
             return self.store(s, target, value, env, ctx, ind, cont)
+        # line = f.readline() for an open text file f (spec `streams`): the next line ('' at the end), f moves on
+        if isinstance(target, ast.Name) and isinstance(value, ast.Call) and isinstance(value.func, ast.Attribute) \
+                and value.func.attr == 'readline' and not value.args and not value.keywords \
+                and isinstance(value.func.value, ast.Name) and value.func.value.id in self.streams:
+            fk = value.func.value.id
+            fv = self.check_mutation(fk, env, s)
+            if self.resolve(fv.ty) != ('list', STR):
+                self.fail(s, 'readline on a %s' % self.show(fv.ty))
+            cell = self.new_cell(target.id, env)
+            env[target.id] = Var(cell, STR)
+            env[fk] = Var(fv.cell, fv.ty, fv.alias)
+            return ('%slet %s := (%s).headD ""\n%slet %s := (%s).tail\n' % (ind, cell, fv.cell, ind, fv.cell, fv.cell)) + cont(env)
+        # x.field = e for a local that holds a record
+        if isinstance(target, ast.Attribute) and isinstance(target.value, ast.Name) and self.key_of(target) is None \
+                and target.value.id in env and self.resolve(env[target.value.id].ty)[0] == 'rec':
+            return self.rec_attr_store(s, target, value, env, ctx, ind, cont)
+        # x = D[k] (spec `element_views`): x IS the element of the dict D of records
+        if self.spec.get('element_views') and isinstance(target, ast.Name) and isinstance(value, ast.Subscript) \
+                and self.key_of(value) is None and self.key_of(value.value) is not None and isinstance(value.slice, ast.Name):
+            dk = self.key_of(value.value)
+            dv = env.get(dk) or self.lookup(dk, env)
+            if dv is not None and self.resolve(dv.ty)[0] == 'dict' and self.resolve(self.resolve(dv.ty)[2])[0] == 'rec' \
+                    and value.slice.id in env:
+                r = self.expr(value, env)
+
+                def use_view(txt, env2, ind2):
+                    env2 = dict(env2)
+                    lets = self.bind_target(target, txt, r.ty, env2, ind2)
+                    self.share(target.id, value, env2)
+                    self.views[target.id] = (dk, value.slice.id, env2[target.id], env2[value.slice.id],
+                                             env2.get(dk) or self.lookup(dk, env2))
+                    return lets + cont(env2, ind2)
+                return self.bind_value(r, ctx, env, ind, use_view)
+        # x = <integer literal> for a local: an int counter
+        if isinstance(target, ast.Name) and self.int_literal(value) is not None and target.id not in self.ptypes \
+                and (target.id not in env or self.resolve(env[target.id].ty) == INT):
+            cell = self.new_cell(target.id, env)
+            env[target.id] = Var(cell, INT)
+            return '%slet %s : Int := (%d)\n' % (ind, cell, self.int_literal(value)) + cont(env)
         # x = None for a local: an optional value
         if isinstance(target, ast.Name) and isinstance(value, ast.Constant) and value.value is None:
             cell = self.new_cell(target.id, env)
@@ -1627,6 +1897,87 @@ class PyFn(Fn):
                         self.share(e.id, value, env2)
             return lets + cont(env2, ind2)
         return self.bind_value(r, ctx, env, ind, use)
+
+    def store3(self, s, target, value, env, ctx, ind, cont):
+        """A[i, :, k] = v on a 3-D array of numbers (variable / declared state attribute), TOTALISED (spec `total_index`): an
+        index out of range (numpy: IndexError) or a `v` that does not broadcast to the middle axis (numpy: ValueError)
+        leaves the array as it is where nothing fits — `Py.setCol3`; negative indices count from the end as in Python"""
+        if not self.spec.get('total_index'):
+            self.fail(s, 'array item assignment without total_index')
+        key = self.key_of(target.value)
+        if key is None:
+            self.fail(s, 'store into something that is not a variable or declared attribute')
+        v = self.check_mutation(key, env, s)
+        if not self.is_num3(v.ty):
+            self.fail(s, 'A[i, :, k] = v on a %s' % self.show(v.ty))
+        i = self.index_int(target.slice.elts[0], env)
+        k = self.index_int(target.slice.elts[2], env)
+        vr = self.expr(value, env, ('list', A))
+
+        def use(txt, env2, ind2):
+            env2 = dict(env2)
+            env2[key] = Var(v.cell, v.ty, v.alias)
+            return '%slet %s := (Py.setCol3 %s %s %s %s)\n' % (ind2, v.cell, v.cell, i, k, txt) + cont(env2, ind2)
+        return self.bind_value(vr, ctx, env, ind, use)
+
+    def view_of(self, name, env):
+        """(dict key, Var of the dict, key cell) when `name` is still the element view `name = D[k]` made earlier: neither
+        name, k nor D was re-bound by anything but the write-backs; else None"""
+        vw = self.views.get(name)
+        if vw is None:
+            return None
+        dk, kn, xv, kv, dv = vw
+        cur_d = env.get(dk) or (self.lookup(dk, env) if dk in self.pattrs else None)
+        if env.get(name) is xv and env.get(kn) is kv and cur_d is not None and (cur_d is dv or cur_d.cell == dv.cell and dk not in env
+                                                                                 and dv.cell == self.pattrs.get(dk, (None,))[0]):
+            return dk, cur_d, kv.cell
+        return None
+
+    def write_back(self, name, view, env, ind):
+        """after a mutation of the element view `name`: the dict holds the mutated object (same key, same position)"""
+        dk, dvar, kcell = view
+        self.check_mutation(dk, {k: v for k, v in env.items() if k != name}, None)
+        nd = Var(dvar.cell, dvar.ty, dvar.alias)
+        env[dk] = nd
+        _, kn, _, kv, _ = self.views[name]
+        self.views[name] = (dk, kn, env[name], kv, nd)
+        return '%slet %s := (Py.dset %s %s %s)\n' % (ind, dvar.cell, dvar.cell, kcell, env[name].cell)
+
+    def rec_attr_store(self, s, target, value, env, ctx, ind, cont):
+        """x.field = e for a local x that holds a record (a fresh object, or an element view)"""
+        name = target.value.id
+        v = env[name]
+        recname = self.resolve(v.ty)[1]
+        f = self.rec_field(recname, target.attr)
+        if f is None:
+            self.fail(s, '%s is not a field of the record %s' % (target.attr, recname))
+        view = self.view_of(name, env)
+        if v.cell in self.frozen or (v.alias and (view is None or set(v.alias) != {view[1].cell})):
+            self.fail(s, 'mutation of `%s`, which may be the same object as %s' % (name, sorted(v.alias)))
+        r = self.expr(value, env, f[2])
+
+        def use(txt, env2, ind2):
+            env2 = dict(env2)
+            comps = [txt if j == f[0] else self.proj(v.cell, j, f[1]) for j in range(f[1])]
+            out = '%slet %s := %s\n' % (ind2, v.cell, comps[0] if f[1] == 1 else '(' + ', '.join(comps) + ')')
+            env2[name] = Var(v.cell, v.ty, v.alias)
+            if view is not None:
+                self.views[name] = self.views[name][:2] + (env2[name],) + self.views[name][3:]
+                out += self.write_back(name, view, env2, ind2)
+            return out + cont(env2, ind2)
+        return self.bind_value(r, ctx, env, ind, use)
+
+    def aug_assign(self, s, env, ctx, ind, cont):
+        """x += n / x -= n for an int counter and an integer literal"""
+        n = self.int_literal(s.value)
+        if not isinstance(s.target, ast.Name) or n is None or not isinstance(s.op, (ast.Add, ast.Sub)) \
+                or s.target.id not in env or self.resolve(env[s.target.id].ty) != INT:
+            self.fail(s, 'unsupported statement')
+        env = dict(env)
+        old = env[s.target.id].cell
+        cell = self.new_cell(s.target.id, env)
+        env[s.target.id] = Var(cell, INT)
+        return '%slet %s : Int := (%s %s (%d))\n' % (ind, cell, old, '+' if isinstance(s.op, ast.Add) else '-', n) + cont(env)
 
     def store(self, s, target, value, env, ctx, ind, cont):
         """d[k] = v on a dict variable / attribute / attribute of a reference"""
@@ -1758,6 +2109,8 @@ class PyFn(Fn):
         c = self.expand_star(c, env)
         k = self.key_of(c.func)
         v = env.get(k) if k else None
+        if v is None and k is not None and k in self.pattrs:
+            v = self.lookup(k, env)                        # a declared cell that holds a callable (e.g. an imported class)
         if v is None:
             return None
         ft = self.resolve(v.ty)
@@ -1798,7 +2151,8 @@ class PyFn(Fn):
         if sig['mutates'] or sig['writes_world']:
             self.fail(s, 'a method with in/out parameters or world effects called on a record')
         v = env[name]
-        if v.alias:
+        view = self.view_of(name, env) if sig['state_cells'] else None
+        if v.alias and (view is None or set(v.alias) != {view[1].cell}):
             self.fail(s, 'mutation of `%s`, which may be the same object as %s' % (name, sorted(v.alias)))
         if v.cell in self.frozen and sig['state_cells']:
             self.fail(s, 'mutation of `%s`, an element of the container the loop runs over (only `for x in D.values()` '
@@ -1828,6 +2182,9 @@ class PyFn(Fn):
                     comps.append(self.proj(v.cell, j, nfields))
             out += '%slet %s := %s\n' % (ind, v.cell, comps[0] if nfields == 1 else '(' + ', '.join(comps) + ')')
             env[name] = Var(v.cell, v.ty, v.alias)
+            if view is not None:
+                self.views[name] = self.views[name][:2] + (env[name],) + self.views[name][3:]
+                out += self.write_back(name, view, env, ind)
 
         def bind_result(src, env2, ind2):
             env2 = dict(env2)
@@ -2110,7 +2467,21 @@ class PyFn(Fn):
             if dkey not in keys:
                 keys.append(dkey)
             src, et = '(List.range (%s).length)' % dv.cell, NAT
+        elif getattr(s, '_iter_bound', None) is not None:
+            src, et = s._iter_bound                        # the iterable was evaluated (it may raise) before the loop
         else:
+            if isinstance(s.iter, ast.Call) and ast.unparse(s.iter.func) not in ('zip', 'enumerate', 'range') \
+                    and not (isinstance(s.iter.func, ast.Attribute) and s.iter.func.attr in ('values', 'items', 'keys')):
+                r0 = self.expr(s.iter, env)
+                if r0.raises and self.resolve(r0.ty)[0] == 'list':
+                    # `for x in f(...)` where the call may raise: it is evaluated once, before the first pass
+                    def use_iter(txt, env2, ind2):
+                        s._iter_bound = (txt, self.resolve(r0.ty)[1])
+                        try:
+                            return self.for_stmt(s, env2, ctx, ind2, cont)
+                        finally:
+                            s._iter_bound = None
+                    return self.bind_value(r0, ctx, env, ind, use_iter)
             src, et = self.iterable(s.iter, env)
         wkeys = [k for k in keys if k != '$world']
         for k in wkeys:
